@@ -17,7 +17,8 @@ EXPLANATION = ("Index-domain typing over the whole package: every subscript, .ge
                "so the listing order of events cannot matter; in the algorithms and the scheduler-facing Interface absolute periods are "
                "used affinely only (differences, comparisons between two periods, sort keys, start + k*period), never scaled, added "
                "to each other or compared with a non-zero constant, and Optional periods are never tested by truthiness (period 0 is a "
-               "valid value).")
+               "valid value)."
+               ' Added in round 3: nothing handed to a scheduler shares mutable state with the network (escape analysis shared with C05), JSON keeps station order (shared with C09), position in the EVSE mapping is the station position.')
 NOT_DECIDED = ("permutation invariance of numeric outputs as such; that a third-party scheduler respects the affine-time discipline; "
                "tie-breaking among equal priority keys")
 
